@@ -18,13 +18,14 @@ type CV struct {
 }
 
 type Env struct {
-	m     *Machine
-	vars  map[string]CV
-	lets  map[string]*Expr
-	cur   *State
-	old   *State
-	bound map[string]CV
-	depth int
+	m          *Machine
+	vars       map[string]CV
+	lets       map[string]*Expr
+	cur        *State
+	old        *State
+	bound      map[string]CV
+	depth      int
+	atCallSite bool
 }
 
 func (m *Machine) baseEnv(c *Config) *Env {
@@ -83,7 +84,7 @@ func (m *Machine) everr(format string, a ...interface{}) {
 var ghostSorts = map[string]Sort{
 	"@in": SBytes, "@pos": SBV64, "@out": SStrm, "@W": SBool, "@E": SBool, "@buf": SStrm, "@rd": SStrm,
 	"@nwrites": SBV64, "@dyncalls": SBV64, "@rset": SBV64,
-	"@refs": SBV64, "@declared": SBV64, "@defs": SBV64, "@depth": SBV64, "@alloc": SBV64, "@nread": SBV64,
+	"@refs": SBV64, "@declared": SBV64, "@tr": SStrm, "@opens": SBV64, "@clashes": SBV64, "@lastwriter": SBV64, "@startcls": SBV64, "@startrefs": SBV64, "@defs": SBV64, "@depth": SBV64, "@alloc": SBV64, "@nread": SBV64,
 }
 
 func (m *Machine) ghost(st *State, name string) Value {
@@ -346,6 +347,14 @@ func (m *Machine) selectField(env *Env, base CV, name string) CV {
 			}
 		}
 	case Term:
+		if b.Sort == "ClassDefV" {
+			switch name {
+			case "FullClassName":
+				return CV{V: app(SStr, "cd.name", b)}
+			case "FieldName":
+				return CV{V: app("StrSeq", "cd.fields", b)}
+			}
+		}
 		// datatype selector by convention <sort-lowercase>.<field>
 		for _, cand := range []string{strings.ToLower(string(b.Sort)) + "." + name, name} {
 			if fn, ok := m.prelude.Funcs[cand]; ok && len(fn.Params) == 1 && fn.Params[0] == b.Sort {
@@ -726,6 +735,20 @@ func (m *Machine) evCall(env *Env, x *Expr) CV {
 		// the value was allocated during this call
 		need(1)
 		a := m.ev(env, args[0])
+		if env.atCallSite {
+			// a callee's guarantee of freshness: record it for the caller's own freshness clauses
+			switch v := a.V.(type) {
+			case *PtrV:
+				if v.Obj != nil {
+					v.Obj.Sym = false
+				}
+			case *SliceV:
+				v.Obj.Sym = false
+			case Term:
+				m.cur.freshTerms[v.S] = true
+			}
+			return CV{V: TTrue}
+		}
 		switch v := a.V.(type) {
 		case *PtrV:
 			return CV{V: mkBool(v.Obj != nil && !v.Obj.Sym && v.Obj.ID > m.cur.entryObjN)}
@@ -770,6 +793,16 @@ func (m *Machine) evCall(env *Env, x *Expr) CV {
 			}
 			return CV{V: cs.lastSent}
 		}
+	case "tokenof":
+		// the token a byte slice stands for when written
+		need(1)
+		a := m.ev(env, args[0])
+		sl, ok := a.V.(*SliceV)
+		if !ok {
+			m.everr("tokenof of non-slice")
+		}
+		strm := m.appendTokens(env.cur, Sym("emp", SStrm), sl)
+		return CV{V: app(STok, "last", strm)}
 	case "bufof":
 		need(1)
 		a := m.ev(env, args[0])
@@ -799,6 +832,34 @@ func (m *Machine) evCall(env *Env, x *Expr) CV {
 			return CV{V: v.(*mapContent).size, Signed: true}
 		}
 		return CV{V: app(SBV64, "map.size0", ref), Signed: true}
+	case "maphas", "mapget":
+		need(2)
+		a := m.ev(env, args[0])
+		ref, ok := a.V.(Term)
+		if !ok || ref.Sort != "MapRef" || a.Typ == nil {
+			m.everr("%s of non-map", name)
+		}
+		mc := m.mapState(env.cur, ref, a.Typ)
+		k := m.asSort(env, m.ev(env, args[1]), mc.ksort)
+		if name == "maphas" {
+			return CV{V: And(Not(Eq(ref, Sym("map.nil", "MapRef"))), Select(mc.has, k))}
+		}
+		return CV{V: Select(mc.get, k), Signed: true}
+	case "istype":
+		need(2)
+		a := m.ev(env, args[0])
+		if args[1].Op != "str" {
+			m.everr("istype(x, \"type\")")
+		}
+		t, ok := a.V.(Term)
+		if !ok || t.Sort != SIface {
+			m.everr("istype of non-interface value")
+		}
+		ty := m.typeByString(args[1].Name)
+		if ty == nil {
+			m.everr("istype: unknown type %s", args[1].Name)
+		}
+		return CV{V: And(Not(Eq(t, Sym("iface.nil", SIface))), Eq(app(SRT, "i.type", t), m.typeConstant(ty)))}
 	case "sameptr":
 		need(2)
 		a, okA := m.ev(env, args[0]).V.(*PtrV)
